@@ -342,6 +342,29 @@ class Prover:
             rs.append(r)
         return (min(r[0] for r in rs), max(r[1] for r in rs))
 
+    def _chunk_len(self, op, depth=0):
+        """length interval of an element drawn from `x.chunks_exact(n)` (every such chunk has exactly n elements)"""
+        if depth > 8 or op.get('k') not in ('copy', 'move'):
+            return None
+        pl = op['place']
+        ds = _defs(self.body, pl['l'])
+        if len(ds) != 1:
+            return None
+        k, d, blk = ds[0]
+        if k == 'assign' and d['k'] == 'use':
+            return self._chunk_len(d['op'], depth + 1)
+        if k == 'assign' and d['k'] in ('ref', 'copy_for_deref'):
+            return self._chunk_len({'k': 'copy', 'place': d['place']}, depth + 1)
+        if k == 'call':
+            c = callee(d)
+            p_ = (c.get('resolved') or c['path']) if c else ''
+            last = p_.split('::')[-1]
+            if last in ('next', 'into_iter', 'by_ref') and d['args']:
+                return self._chunk_len(d['args'][0], depth + 1)
+            if last == 'chunks_exact' and len(d['args']) == 2:
+                return self.range_of(d['args'][1], 0)
+        return None
+
     # ---- lengths ---------------------------------------------------------------------------------------
     def len_range(self, op, block):
         """interval of the length of the slice / array an operand denotes, refined by guards on `x.len()`"""
@@ -353,6 +376,9 @@ class Prover:
         if n is not None:
             return (n, n)
         rng = (0, SLICE_MAX)
+        ck = self._chunk_len(op)
+        if ck is not None:
+            rng = (max(rng[0], ck[0]), min(rng[1], ck[1]))
         if rp is None:
             return rng
         # any local defined as len(<same place>) that the guards talk about
@@ -391,6 +417,14 @@ def prove_site(body, block, term):
         if len(ds) != 1 or ds[0][0] != 'assign' or ds[0][1]['k'] != 'bin':
             return None
         rv = ds[0][1]
+        if kind in ('div_zero', 'rem_zero') and rv['op'] == 'Eq':
+            # the assert checks `divisor == 0` to be false
+            for x, y in ((rv['a'], rv['b']), (rv['b'], rv['a'])):
+                if y.get('k') == 'const' and y.get('int') == 0:
+                    r = pr.range_of(x, 0, block)
+                    if r is not None and r[0] > 0:
+                        return 'divisor >= %d' % r[0]
+            return None
         if not rv['op'].endswith('WithOverflow'):
             return None
         ty = (rv['a'].get('place') or {}).get('ty') or rv['a'].get('ty') or (rv['b'].get('place') or {}).get('ty') or rv['b'].get('ty')
